@@ -27,6 +27,16 @@ LEVEL_TEXT = ("Theorems (Coq, all inputs, over the reals): the dispatch of Integ
               "has n rows, a request that returns has evaluated the integrand exactly once at each of the n roots in order and nowhere else and returns the sum of value times weight (C13_gauss_legendre_table_size, C13_gauss_legendre_samples); "
               "the chain of the three overloads of Integrate_Gauss_Legendre never reaches an exit branch of the inner two and equals the model used everywhere (C13_gauss_legendre_overload_chain), while sizes that differ or a row that is "
               "not a root and a weight terminate (C13_gauss_legendre_malformed_exits; the two inner overloads are driven directly by the cases glvec / glfun and compared with the model bit for bit). "
+              "Stacks of any number of levels over the reals (C13_Proofs_Stack.v, induction over the list of levels; nest_nd is not extracted itself, cut at two and three levels it is the extracted nesting): "
+              "C13_stack_is_iterated_integral (under an exact one-dimensional integrator the stack is the iterated integral in which position i carries the variable of the i-th pair of limits - C13_nested_2d/3d at any depth), "
+              "C13_stack_separable_product and C13_stack_separable_product_factorwise (separable integrand = product of the one-dimensional integrals for any number of factors, every orientation; the second asks exactness "
+              "only on the multiples of the factors that occur and no integrability), and WITHOUT any premise on a back end C13_adaptive_simpson_stack_exact_to_degree_5 / C13_adaptive_simpson_2d_3d_exact_to_degree_5: "
+              "Integrate_2D, Integrate_3D and stacks of any depth under \"Adaptive-Simpson\" return exactly the product of the integrals of factors of degree <= 5, all limits in every orientation, every method_parameter "
+              "(on the implementation: the 'quintic' cases, to rounding, 1e-13 of the L1 norm instead of the method's 1e-9 per level). Orientation per axis without exactness premise: C13_stack_reverse_any_level (an integrator that is negated by "
+              "exchanging its limits and by negating its integrand: exchanging the limits of any ONE level of a stack of any depth negates the stack, for every integrand, terminating ones included), C13_integrate_reversing_and_odd "
+              "(Integrate is such an integrator for \"Gauss-Legendre_2\" with every number of points and for \"Adaptive-Simpson\" - induction over its recursion: the test |S2-S| <= 15|eps| and Find_Epsilon do not see the sign - with no premise, "
+              "and for the four boost names under the premise that the external rule is odd in its integrand, backend_odd), C13_reverse_any_axis and C13_front_ends_reverse_any_axis (each of the two axes of Integrate_2D and of the three of "
+              "Integrate_3D, any integrand). Oddness of the boost rules themselves is NOT a theorem (external code; on the implementation the orientation of every axis is checked against the closed form). "
               "NOT theorems: the 1e-9 / 1e-6 accuracies of the four boost quadratures (external code), of libphysica's own Gauss-Legendre rule (the Newton iteration for the roots is not analysed: no statement on the quality of roots and weights) "
               "and of the adaptive Simpson rule beyond degree 5 without the premise above, on smooth "
               "integrands - these are checked on the implementation against closed-form integrals (S4) on every run; the Gallina model (the extracted term, with the library's own two "
@@ -411,6 +421,27 @@ def generate(rng, tier):
                     p = P(method, explicit)
                     cs.append(Case(f"nested2d {method} {p} {hx(x1)} {hx(x2)} {hx(y1)} {hx(y2)} {product_text([fx, fy], 'xy')} # nd {fx.ann()} {fy.ann()}",
                                    ("nested2d", method, ("x+" if ox else "x-") + ("y+" if oy else "y-"))))
+    # Adaptive-Simpson on products of monomials of degree <= 5, every axis in both orientations: exact to rounding (C13_adaptive_simpson_2d_3d_exact_to_degree_5,
+    # C13_front_ends_reverse_any_axis); degrees 4 and 5 make the recursion work (the two Simpson estimates differ), 0..3 are accepted at once
+    for o in range(8):
+        ox, oy, oz = bool(o & 1), bool(o & 2), bool(o & 4)
+        (x1, x2), (y1, y2), (z1, z2) = limits(rng, 0, ox), limits(rng, 1, oy), limits(rng, 2, oz)
+        degs = [rng.choice([4, 5]), rng.choice([0, 1, 2, 3, 4, 5])]
+        rng.shuffle(degs)
+        fx, fy = (Fac("mono", rng.choice([1.0, 0.5, 2.0, 3.0]), dg) for dg in degs)
+        sg = ("x+" if ox else "x-") + ("y+" if oy else "y-")
+        if o < 4:
+            cs.append(Case(f"nested2d Adaptive-Simpson 0 {hx(x1)} {hx(x2)} {hx(y1)} {hx(y2)} {product_text([fx, fy], 'xy')} # nd {fx.ann()} {fy.ann()}",
+                           ("nested2d", "Adaptive-Simpson", "quintic", sg)))
+        if o in (3, 5):
+            degs = [rng.choice([4, 5]), rng.choice([0, 1, 2, 3]), rng.choice([1, 2, 3])]
+            rng.shuffle(degs)
+            fx, fy, fz = (Fac("mono", rng.choice([1.0, 0.5, 2.0, 3.0]), dg) for dg in degs)
+            cs.append(Case(f"nested3d Adaptive-Simpson 0 {hx(x1)} {hx(x2)} {hx(y1)} {hx(y2)} {hx(z1)} {hx(z2)} {product_text([fx, fy, fz], 'xyz')} # nd {fx.ann()} {fy.ann()} {fz.ann()}",
+                           ("nested3d", "Adaptive-Simpson", "quintic", sg + ("z+" if oz else "z-"))))
+        a, b = limits(rng, rng.randrange(3), ox)
+        f5 = Fac("mono", rng.choice([1.0, 0.5, 2.0]), rng.choice([4, 5]))
+        cs.append(Case(f"named1d Adaptive-Simpson 0 {hx(a)} {hx(b)} {f5.text('x')} # 1d {f5.ann()}", ("named1d", "Adaptive-Simpson", "quintic", "fwd" if ox else "rev")))
     # small Gauss-Legendre_2 orders in 2-D / 3-D: pins routing, sign per axis and nesting order to rounding
     for n in (1, 2, 3, 4, 5):
         for o in range(8):
@@ -1724,6 +1755,10 @@ def trapezoid_refinement_cap(op, lim, ann, neval, val, ex):
 def inexact_levels(op, method, ann, d):
     """the number of nesting levels on which the method's accuracy is spent: all of them, except that the trapezoidal rule is exact (to rounding) on a level
     whose variable enters the integrand through a polynomial of degree <= 1, and on the two angular levels of a radial profile (constant in the angles)"""
+    if method == "Adaptive-Simpson" and ann and ann[0] in ("1d", "nd") and "@" not in ann:
+        # theorems C13_adaptive_simpson_exact_to_degree_5 / C13_adaptive_simpson_2d_3d_exact_to_degree_5: a level whose variable enters through a polynomial of
+        # degree <= 5 is exact (every accepted panel is Boole's rule), whatever the tolerance: rounding only
+        return sum(1 for f in parse_ann(ann)[1] if poly_degree(f) is None or poly_degree(f) > 5)
     if method != "Trapezoidal" or not ann: return d
     if ann[0] in ("1d", "nd"): return sum(1 for f in parse_ann(ann)[1] if f.curved())
     if ann[0] == "sphr": return 1
